@@ -197,7 +197,7 @@ def mk_comments(ti, syntax):
     uses_r = '*901' in abbr
 
     def harness(wrong):
-        def h(inline_break: int, fmt: bool, r: int):
+        def h(inline_break: int, fmt: bool, r: int, custom: bool):
             if uses_r:
                 if not (1 <= r <= 3):
                     return 'skip'
@@ -205,8 +205,12 @@ def mk_comments(ti, syntax):
                 return 'skip'
             base = {'output.format': fmt, 'output.indent': IND, 'output.newline': NL, 'output.baseIndent': BASE,
                     'output.inlineBreak': inline_break}
+            on = {'comment.enabled': True}
+            if custom:
+                # user templates with line breaks inside the conditional placeholders: they must go through output.newline too
+                on.update({'comment.after': '[\n<!-- /#ID -->][\n<!-- /.CLASS -->]', 'comment.before': '[<!-- #ID -->\n]'})
             a, _ = run_expand(abbr, syntax, dict(base, **{'comment.enabled': False}), r, 'tx')
-            b, _ = run_expand(abbr, syntax, dict(base, **{'comment.enabled': True}), r, 'tx')
+            b, _ = run_expand(abbr, syntax, dict(base, **on), r, 'tx')
             b2 = COMMENT.sub('', b)
             if wrong:
                 b2 = b2 + '!'
@@ -215,9 +219,9 @@ def mk_comments(ti, syntax):
                 b2 = b2.replace(ch, '')
             return True if a == b2 else 'comments_changed_content'
         return h
-    w = dict(inline_break=3, fmt=True, r=2 if uses_r else 1)
-    return {'fn': harness(False), 'twin': harness(True), 'witnesses': [w, dict(w, fmt=False)],
-            'assumptions': ['template %s, syntax %s; comment.enabled on vs off with default trigger/templates; comment tokens '
+    w = dict(inline_break=3, fmt=True, r=2 if uses_r else 1, custom=False)
+    return {'fn': harness(False), 'twin': harness(True), 'witnesses': [w, dict(w, fmt=False), dict(w, custom=True)],
+            'assumptions': ['template %s, syntax %s; comment.enabled on vs off with default templates or user templates that contain line breaks; comment tokens '
                             '<!--...--> and sentinel whitespace are removed before comparing' % (abbr, syntax)],
             'functions': ['format.comment.should_comment/comment_node_before/comment_node_after/output', 'markup.addon.xsl.xsl']}
 
